@@ -87,3 +87,39 @@ Definition update_fee_dust_ok (l r max_dust : Z) : bool :=
   negb (fee_local_dust_over l r max_dust) && negb (fee_remote_dust_over l r max_dust).
 Definition accept_htlc_dust_ok (l r max_dust : Z) : bool :=
   negb (accept_remote_dust_over l r max_dust) && negb (accept_local_dust_over l r max_dust).
+
+(** channelmanager.rs [can_forward_htlc_should_intercept] when the onion names an SCID for which the
+    node has NO channel (the [None =>] arm of [do_funded_channel_callback]), followed by the final
+    [check_incoming_htlc_cltv]. The SCID is a phantom SCID, one handed out by [get_intercept_scid], or
+    anything else; [forward_needs_intercept_to_unknown_chan] consults the two interception flags.
+    The amount and CLTV sanity checks come FIRST and therefore apply to every outcome (phantom receive,
+    interception); that order is pinned against the source by the plugin (structural pin) and the
+    whole function by the scripted interception sweep of h_fwdm. [ROk b]: [b] = intercept. *)
+Inductive scid_kind : Type := ScidPhantom | ScidIntercept | ScidOther.
+
+Definition needs_intercept_unknown (k : scid_kind) (flag_intercept_scids flag_unknown_scids : bool) : bool :=
+  match k with
+  | ScidIntercept => flag_intercept_scids
+  | ScidPhantom => false
+  | ScidOther => flag_unknown_scids
+  end.
+
+Definition no_channel_admission (k : scid_kind) (flag_intercept_scids flag_unknown_scids : bool)
+    (cur_height in_amt in_cltv amt_to_forward outgoing_cltv : Z) : rres bool :=
+  if unknown_chan_amt_exceeds amt_to_forward in_amt then RErr "FeeInsufficient"
+  else if unknown_chan_cltv_delta_too_small (unknown_chan_cltv_delta in_cltv outgoing_cltv)
+       then RErr "IncorrectCLTVExpiry"
+  else
+    let outcome :=
+      match k with
+      | ScidPhantom => Some false
+      | _ => if needs_intercept_unknown k flag_intercept_scids flag_unknown_scids then Some true else None
+      end in
+    match outcome with
+    | None => RErr "UnknownNextPeer"
+    | Some intercept =>
+      match check_incoming_htlc_cltv cur_height outgoing_cltv in_cltv MIN_CLTV_EXPIRY_DELTA with
+      | ROk _ => ROk intercept
+      | RErr e => RErr e
+      end
+    end.
